@@ -19,7 +19,7 @@ import os
 
 import core
 
-PROOF_MODULES = ["UnytProofs.C07", "UnytProofs.C07Lists", "UnytProofs.Real.C07Real"]
+PROOF_MODULES = ["UnytProofs.C07", "UnytProofs.C07Lists", "UnytProofs.C07Memo", "UnytProofs.Real.C07Real"]
 HARNESS = os.path.dirname(os.path.abspath(__file__))
 REGROUPS = (0, 1, 2, "all")
 
@@ -94,6 +94,190 @@ def cov_pass(job):
                             fails[key] = dict(kind="cov", tid=t.tid, dk=dk, sc=sc, seed=dseed, mode=mode, rg=rg, om=om, what=w, detail=str(x)[:500],
                                               call=f"{t.func}({t.instantiate(dk, sc, dseed).describe()})")
     return dict(stats=stats, fails=fails, compared=sorted(compared), samples=samples)
+
+
+def hist_pass(job):
+    """direct oracle under a history: every template x shape class (first dtype) x one kind of registry edit between a
+    warming call and the compared call (c07_hist.history_compare)"""
+    dseed, edits, only = job
+    _setup()
+    import npcatalog as C
+    import c07_hist as H
+
+    stats, fails, compared = {}, {}, set()
+    n = 0
+    for t in C.templates():
+        fid = t.func if t.is_method else C.canonical_func(t)
+        if only is not None and fid not in only:
+            continue
+        dk = dtypes_of(t)[0]
+        for sc in t.shapes:
+            edit = edits[n % len(edits)]
+            n += 1
+            for ed in (edits if only is not None else (edit,)):
+                try:
+                    st, d = H.history_compare(t, dk, sc, dseed, ed, "unyt")
+                except Exception as e:  # noqa: BLE001
+                    st, d = "skip:error-" + type(e).__name__, None
+                stats[st] = stats.get(st, 0) + 1
+                if st in ("same", "differ"):
+                    compared.add((t.tid, sc, dk, "hist", ed))
+                if st == "differ":
+                    for w, x in d:
+                        key = f"{fid}|{t.variant}|stale-after-registry-edit:{w}"
+                        if key not in fails:
+                            fails[key] = dict(kind="hist", tid=t.tid, dk=dk, sc=sc, seed=dseed, edit=ed, what=w, detail=str(x)[:500],
+                                              call=f"{t.func}({t.instantiate(dk, sc, dseed).describe()})")
+    return dict(stats={"hist:" + k: v for k, v in stats.items()}, fails=fails, compared=sorted(compared), samples=[])
+
+
+def run_job(job):
+    return hist_pass(job[1:]) if job[0] == "hist" else cov_pass(job)
+
+
+def history_correspondence(chk, model, recs, reps, memo_rows, tier):
+    """`LabelMemo.run` of the compiled model (memo configuration of the regenerated row, exponents of the regenerated
+    rule row as `c07.predict` evaluated them) against the real handler under the same random history of registry
+    edits and calls: log2(base_value) of the first unit-carrying leaf of every call"""
+    import npcatalog as C
+    import c07_hist as H
+
+    by_form = {(r["func"], r["variant"]): r for r in memo_rows}
+    # the table read back
+    try:
+        back = model.ask([f"c07.memo\t{r['func']}\t{r['variant']}" for r in memo_rows])
+    except Exception as e:  # noqa: BLE001
+        back = []
+        chk.disagree("driver", repr(e))
+    b = lambda v: "1" if v else "0"  # noqa: E731
+    for r, rp in zip(memo_rows, back):
+        want = ",".join((b(r["memo"]), b(r["byReg"]), b(r["byExpr"]), b(r["byScale"])))
+        if rp[0] != "ok" or rp[1] != want or rp[2] != str(len(memo_rows)):
+            chk.disagree("c07.memo", f"{r['func']}|{r['variant']}: model {rp} translator {want} of {len(memo_rows)} rows")
+    todo, seen = [], set()
+    for r, rp in zip(recs, reps):
+        k = (r["func"], r["variant"])
+        if k in seen or k not in by_form or r["outcome"] != "ok" or r["out_mode"] != "unyt" or rp[0] != "ok" or len(rp) < 3:
+            continue
+        preds = rp[2].split(" ") if rp[2] else []
+        if len(preds) != len(r["leaves"]):
+            continue
+        carr = [i for i, lf in enumerate(r["leaves"]) if lf["carries"]]
+        if not carr:
+            continue
+        pm = parse_label(preds[carr[0]].partition("|")[2])
+        if pm is None or not pm[0] or any(g not in ("0", "1", "2") for g in pm[0]):
+            continue
+        seen.add(k)
+        todo.append((r, pm[0]))
+    if tier == "quick":
+        memoised = [x for x in todo if by_form[(x[0]["func"], x[0]["variant"])]["memo"]]
+        rest = [x for x in todo if not by_form[(x[0]["func"], x[0]["variant"])]["memo"]]
+        chk.rng.shuffle(rest)
+        todo = memoised[:40] + rest[:60]
+    lines, cases = [], []
+    for r, ex in todo:
+        groups = sorted(int(g) for g in ex)
+        ev = H.random_history(chk.rng)
+        init, evs = history_wire(H, ev)
+        lines.append("\t".join(["c07.history", r["func"], r["variant"], ",".join(map(str, groups)),
+                                ",".join(str(ex[str(g)]) for g in groups), init, evs]))
+        cases.append((r, ev))
+    try:
+        ans = model.ask(lines)
+    except Exception as e:  # noqa: BLE001
+        ans = []
+        chk.disagree("driver", repr(e))
+    from fractions import Fraction
+
+    for (r, ev), rp in zip(cases, ans):
+        tid, dk, sc, seed, _om = r["case"]
+        t = [t for t in C.templates() if t.tid == tid][0]
+        try:
+            real = H.real_history(t, dk, sc, seed, ev)
+        except Exception as e:  # noqa: BLE001
+            chk.count("history:real-raises-" + type(e).__name__)
+            continue
+        if rp[0] != "ok":
+            chk.disagree("c07.history", f"{tid}: {rp}")
+            continue
+        model_ans = [Fraction(x) for x in rp[1].split(" ")] if len(rp) > 1 and rp[1] else []
+        obs = [lab[0] if lab else None for lab in real]
+        chk.count("model:c07.history")
+        chk.case(("history", r["func"], r["variant"], tuple(e[0] for e in ev)))
+        if len(model_ans) != len(obs) or any(o is None or abs(float(o) - float(m)) > 1e-9 for o, m in zip(obs, model_ans)):
+            chk.disagree("c07.history", f"{tid} {r['case'][1:]} history {ev}: model label scales (log2) {[str(x) for x in model_ans]}, "
+                                        f"real handler {obs}")
+
+
+def history_wire(H, ev):
+    init = ";".join(f"{rg}.{3 * s + g}={H.LOGBASE[g] + ks[g]}" for (rg, s), ks in H.INITIAL.items() for g in range(3))
+    evs = "|".join(f"c:{e[1]}:{e[2]}" if e[0] == "call" else
+                   f"m:{e[1]}:{e[2]}:" + ",".join(str(H.LOGBASE[g] + e[3][g]) for g in range(3)) for e in ev)
+    return init, evs
+
+
+def rule_history_correspondence(chk, model, tier):
+    """the memoised unit rules of unyt/array.py (`_unit_rule_cache`): `LabelMemo.run` / `missesOf` with the key the
+    translator read off cache hits and misses, against the ufunc each rule serves under the same random history"""
+    from fractions import Fraction
+
+    import c07_hist as H
+
+    try:
+        RR = json.load(open(os.path.join(core.BUILD, "extract_c07_rulememo.json"), encoding="utf-8"))["rows"]
+    except Exception as e:  # noqa: BLE001
+        chk.disagree("translator", f"build/extract_c07_rulememo.json unreadable: {e!r}")
+        return
+    chk.extra["rule_memo_rows"] = len(RR)
+    table = H._rule_table()
+    b = lambda v: "1" if v else "0"  # noqa: E731
+    lines, cases = [], []
+    for r in RR:
+        name = r["func"].rsplit(".", 1)[1]
+        if not (r["memo"] and r["byExpr"] and r["byScale"]):
+            chk.disagree("c07.rulememo", f"{r['func']}: the key of the memoised unit rule lacks a component the label depends on "
+                                         f"(registry object {r['byReg']}, expression {r['byExpr']}, scale {r['byScale']}): live_rule_memos_adequate fails")
+        lines.append(f"c07.memo\t{r['func']}\trule")
+        cases.append(("memo", r, None))
+        if name not in table:
+            chk.disagree("c07.rulememo", f"{r['func']}: a memoised unit rule without a ufunc in c07_hist._rule_table — a new memo must be modelled")
+            continue
+        _f, groups, expos = table[name]
+        for _ in range(4 if tier == "quick" else 16):
+            ev = H.random_history(chk.rng, 8)
+            init, evs = history_wire(H, ev)
+            lines.append("\t".join(["c07.history", r["func"], "rule", ",".join(map(str, groups)), ",".join(str(x) for x in expos), init, evs]))
+            cases.append(("hist", r, ev))
+    try:
+        ans = model.ask(lines)
+    except Exception as e:  # noqa: BLE001
+        chk.disagree("driver", repr(e))
+        return
+    for (kind, r, ev), rp in zip(cases, ans):
+        if kind == "memo":
+            want = ",".join((b(r["memo"]), b(r["byReg"]), b(r["byExpr"]), b(r["byScale"])))
+            if rp[0] != "ok" or rp[1] != want or rp[3] != str(len(RR)):
+                chk.disagree("c07.memo", f"{r['func']}: model {rp} translator {want} of {len(RR)} rules")
+            continue
+        name = r["func"].rsplit(".", 1)[1]
+        try:
+            real, misses = H.real_rule_history(name, ev)
+        except Exception as e:  # noqa: BLE001
+            chk.disagree("c07.history", f"{r['func']} history {ev}: the real ufunc raises {e!r}")
+            continue
+        chk.count("model:c07.history.rule")
+        chk.case(("rule-history", name, tuple(e[:3] for e in ev)))
+        if rp[0] != "ok" or len(rp) < 3:
+            chk.disagree("c07.history", f"{r['func']}: {rp}")
+            continue
+        model_ans = [Fraction(x) for x in rp[1].split(" ")] if rp[1] else []
+        obs = [lab[0] if lab else None for lab in real]
+        if len(model_ans) != len(obs) or any(o is None or abs(float(o) - float(m)) > 1e-9 for o, m in zip(obs, model_ans)):
+            chk.disagree("c07.history", f"{r['func']} history {ev}: model label scales (log2) {[str(x) for x in model_ans]}, real ufunc {obs}")
+        if int(rp[2]) > misses:
+            chk.disagree("c07.history", f"{r['func']} history {ev}: the model misses {rp[2]} times, the real lru_cache only {misses}: "
+                                        "the real key is coarser than the regenerated configuration says")
 
 
 # ---------------------------------------------------------------------------------------
@@ -363,6 +547,22 @@ def run(tier, seed):
                 chk.disagree("c07.attach", f"{r['case'][0]}: Np.run with the unit rule gives label {rp[1]!r}; observed label {want!r}")
                 suspects.add(r["func"])
 
+        # the memo of the label under a history of registry edits (LabelMemo.run) against the real handler
+        try:
+            MR = json.load(open(os.path.join(core.BUILD, "extract_c07_memo.json"), encoding="utf-8"))["rows"]
+        except Exception as e:  # noqa: BLE001
+            MR = []
+            chk.disagree("translator", f"build/extract_c07_memo.json unreadable: {e!r}")
+        history_correspondence(chk, model, recs, reps, MR, tier)
+        rule_history_correspondence(chk, model, tier)
+        for r in MR:
+            if r["memo"] and not (r["byExpr"] and r["byScale"]):
+                suspects.add(r["func"])
+                chk.disagree("c07.memo", f"{r['func']}|{r['variant']}: the label of the result depends on the history of the process "
+                                         f"(memo key: registry object {r['byReg']}, expression {r['byExpr']}, scale {r['byScale']}): "
+                                         "live_label_memos_adequate fails")
+        chk.extra["memo_rows"] = len(MR)
+
     # rows whose defects are not on the exclusion list (a broken table obligation names them)
     if model is not None and X:
         try:
@@ -385,11 +585,17 @@ def run(tier, seed):
     else:
         modes = ["p4", "ord", "mix", "ord2"]
         jobs = [(3000 + seed * 101 + i, modes[i % 4], "bare" if i % 6 == 5 else "unyt", lists, None) for i in range(24)]
+    hist_edits = ("modify", "readd", "otherreg", "othersym")
+    jobs.append(("hist", 7000 + seed * 17, hist_edits, None))
+    if tier != "quick":
+        jobs += [("hist", 7100 + seed * 17 + i, hist_edits[i % 4:] + hist_edits[:i % 4], None) for i in range(1, 4)]
+    if suspects:
+        jobs.append(("hist", 7500 + seed * 17, hist_edits, sorted(suspects)))
     if suspects:
         # widened search on the functions a broken obligation / disagreement points at
         jobs += [(5000 + seed * 7 + i, m, om, lists, sorted(suspects)) for i in range(3) for m, om in (("p4", "unyt"), ("mix", "unyt"), ("p4", "bare"))]
     with multiprocessing.get_context("fork").Pool(4) as pool:
-        results = pool.map(cov_pass, jobs)
+        results = pool.map(run_job, jobs)
     for res in results:
         for st, n in res["stats"].items():
             chk.count("cov:" + st, n)
@@ -400,7 +606,12 @@ def run(tier, seed):
                 chk.samples.append(s)
         for key, f in res["fails"].items():
             t = [t for t in C.templates() if t.tid == f["tid"]][0]
-            if f["kind"] == "base":
+            if f["kind"] == "hist":
+                import c07_hist as H
+                py = H.replay_snippet(t, f["dk"], f["sc"], f["seed"], f["edit"], "unyt", HARNESS)
+                what = (f"{f['call']}: after a first call on operands in code units of a custom registry and the registry edit "
+                        f"{f['edit']!r} (symbols re-scaled by powers of four), the same call on the same physical operands: {f['what']}: {f['detail']}")
+            elif f["kind"] == "base":
                 py = V.base_replay_snippet(t, f["dk"], f["sc"], f["seed"], f["mode"], f["om"], HARNESS, f["what"], lists)
                 what = f"{f['call']} in base units ({f['mode']}): {f['detail']}"
             else:
@@ -412,6 +623,7 @@ def run(tier, seed):
     chk.extra["rule_rows"] = len(X["rows"]) if X else 0
     chk.assumptions = [
         "the homogeneity degree of each NumPy function in each operand is the hand-written reference Ref/C07Degrees.lean (mathematics of the function), not derived from NumPy",
+        "the memo configuration of a handler (Generated/C07Memo.lean) is inferred from three two-call history probes per call form (scale edited in place, other registry object, other expression); a memo that needs a longer history to leak is seen by the history oracle only",
         "default-path functions (no handler: func._implementation on the subclass, __array_finalize__/__array_ufunc__ wrap-up) and ndarray methods are covered by the correspondence (covariance oracle) only",
         "the regenerated rows describe the catalogue's call forms (shapes sampled, shape-dependent exponents fitted and cross-checked with the ast pass); other call forms are covered by the ast pass only",
         "theorems are over exact fields with lawful rational powers; floating-point rounding is bounded only by the oracle (bit-for-bit for power-of-four rescalings, 1e-9 relative otherwise)",
